@@ -325,6 +325,15 @@ def import_shapes(tier):
             else:
                 info['assoc'] = {'Alpha': tys}
             out.append((f"C12 imported value with governing type clauses[{','.join(order)}]{' type defined in a third module' if via_third else ''}{'' if misc == 'Misc' else ' next to an imported type ' + misc}", text, info))
+    # CYCLIC import graphs: Ma imports a value from Mb whose governing type is defined in Ma itself (Mb imports it from Ma); the type
+    # sorts first / in the middle / last among Ma's definitions.  Ma must not use anything from itself
+    for defs in ("Kind ::= INTEGER (0..99) Window ::= SEQUENCE { w Kind }", "Aa ::= NULL Kind ::= INTEGER (0..99) Window ::= SEQUENCE { w Kind }", "Aa ::= NULL Box ::= SEQUENCE { w Kind } Kind ::= INTEGER (0..99)", "Kind ::= INTEGER (0..99)"):
+        for first in ('Ma', 'Mb'):
+            ma = f"Ma DEFINITIONS AUTOMATIC TAGS ::= BEGIN IMPORTS limit FROM Mb; {defs} Ta ::= SEQUENCE {{ k Kind DEFAULT limit }} END"
+            mb = "Mb DEFINITIONS AUTOMATIC TAGS ::= BEGIN IMPORTS Kind FROM Ma; limit Kind ::= 10 END"
+            text = '\n'.join([ma, mb] if first == 'Ma' else [mb, ma])
+            out.append((f"C12 cyclic imports: imported value governed by a type of the importing module [{defs.split(' ::=')[0]} first, {len(defs.split('::=')) - 1} definitions, {first} first]", text,
+                        {'imports': [('Mb', [('limit', 'value')])], 'wildcard': False, 'qualified': None}))
     return out
 
 
